@@ -49,6 +49,12 @@ type verifC12Cmd struct {
 //	ack      Future.Wait returned success (Index, Term, Data) for proposal ID submitted on Node
 //	fail     Future.Wait returned an error (Err) for proposal ID
 //	reject   Propose returned an error synchronously
+//	vote     the network saw Node hand a granted MsgVoteResp for candidate Peer (or its own MsgVote, Peer == Node) in Term to its transport
+//	durable  what Node's storage held for Slot when incarnation Inc was about to open it (Term, Vote, Last index, Index = applied index),
+//	         next to what the previous incarnations had handed to their transport (SentTerm, AckTerm/AckIndex) and the
+//	         MarkApplied values the storage had acknowledged or was executing when the node stopped (Marks)
+//	stale    fault script: Node led Slot in Term, was cut off and accepted the proposals IDs; Peer took over (0: nobody) and
+//	         accepted N proposals before the heal; Opening: Node still believed it led when the partition healed
 type verifC12Event struct {
 	Seq      int64         `json:"seq"`
 	Kind     string        `json:"k"`
@@ -66,6 +72,15 @@ type verifC12Event struct {
 	Content  []verifC12Cmd `json:"content,omitempty"`
 	Data     string        `json:"data,omitempty"`
 	Err      string        `json:"err,omitempty"`
+	Peer     int           `json:"peer,omitempty"`
+	Vote     uint64        `json:"vote,omitempty"`
+	Last     uint64        `json:"last,omitempty"`
+	SentTerm uint64        `json:"sent_term,omitempty"`
+	AckTerm  uint64        `json:"ack_term,omitempty"`
+	AckIndex uint64        `json:"ack_index,omitempty"`
+	Marks    []uint64      `json:"marks,omitempty"`
+	Floors   []uint64      `json:"floors,omitempty"` // kill: per slot, the last MarkApplied index the storage had acknowledged
+	IDs      []string      `json:"ids,omitempty"`
 }
 
 // verifC12History is the replayable record of one run.
@@ -114,13 +129,21 @@ type verifC12Link struct {
 }
 
 type verifC12Step struct {
-	Kind     string        `json:"kind"` // isolate, oneway, split, heal, link, restart, transfer, compact, pause
+	Kind     string        `json:"kind"` // isolate, oneway, split, heal, link, restart, transfer, compact, pause, staleLeader, crashWrite, voteCrash
 	Nodes    []int         `json:"nodes,omitempty"`
 	Slot     int           `json:"slot,omitempty"`
 	DownMS   int           `json:"down,omitempty"`
 	Unsynced int           `json:"unsynced,omitempty"` // Kill mode: percent of unsynced data that survives the power loss
 	PauseMS  int           `json:"pause"`
 	Link     *verifC12Link `json:"link,omitempty"`
+	// staleLeader: K proposals on the cut-off leader, M on its successor; OneWay: only the leader's outbound links are cut
+	K      int  `json:"k,omitempty"`
+	M      int  `json:"m,omitempty"`
+	OneWay bool `json:"oneway,omitempty"`
+	// crashWrite: the node loses power at its Nth storage write of class Class, before (or right after) the write is durable
+	Class  string `json:"class,omitempty"`
+	Nth    int    `json:"nth,omitempty"`
+	Before bool   `json:"before,omitempty"`
 }
 
 type verifC12Config struct {
@@ -135,6 +158,7 @@ type verifC12Config struct {
 	Trigger       uint64         `json:"trigger"` // 0: compaction disabled
 	SMKind        int            `json:"sm"`      // 0 plain Apply, 1 ApplyBatch, 2 ApplyBatch + DurableAppliedIndex
 	Pebble        bool           `json:"pebble"`
+	MemFS         bool           `json:"memfs,omitempty"` // pebble on an in-memory file system (no power loss)
 	Kill          bool           `json:"kill"` // restarts are power losses: storage continues from a crash image (pebble on CrashableMem)
 	MaxSizePerMsg uint64         `json:"max_size_per_msg"`
 	MaxInflight   int            `json:"max_inflight"`
@@ -194,6 +218,18 @@ func (r *verifC12Rec) applyLocked(cmd multiraft.Command, batch int) []byte {
 type verifC12Inc struct {
 	n    int
 	dead atomic.Bool
+	// a storage write of an incarnation that lost power never returns while
+	// the runtime is live (a write error would be a different fault: the
+	// runtime does not survive one, it asks raft for the next Ready without
+	// having advanced the failed one); release is closed once the runtime
+	// has been marked closed
+	release     chan struct{}
+	releaseOnce sync.Once
+}
+
+func (i *verifC12Inc) lost() error {
+	<-i.release
+	return verifC12ErrDead
 }
 
 var verifC12ErrDead = errors.New("verifC12: this incarnation lost power")
@@ -353,12 +389,72 @@ type verifC12Net struct {
 	done    chan struct{}
 
 	leaders map[[2]uint64]int // (slot, term) -> node seen sending leader-only messages
+	// promises: what each node handed to its transport, per (node, slot)
+	promises map[[2]int]*verifC12Promise
+	votes    map[[4]uint64]bool // (node, slot, term, candidate)
 
 	sent, dropped, duped, delivered, blockedDrops, snaps atomic.Int64
 }
 
+// verifC12Promise summarises the messages a node has handed to its transport
+// for one slot: the highest term it spoke in (pre-vote traffic carries the
+// next term and is left out) and the highest log index it acknowledged as
+// appended in the highest term in which it acknowledged anything.
+type verifC12Promise struct {
+	SentTerm, AckTerm, AckIndex uint64
+}
+
+func (n *verifC12Net) promised(node, slot int) verifC12Promise {
+	n.mu.Lock()
+	defer n.mu.Unlock()
+	if p := n.promises[[2]int{node, slot}]; p != nil {
+		return *p
+	}
+	return verifC12Promise{}
+}
+
+// observeLocked records what the sender commits itself to with m. It runs
+// before any loss is applied: a promise is made when the message leaves the
+// node, delivered or not.
+func (n *verifC12Net) observeLocked(from, inc int, slot multiraft.SlotID, m raftpb.Message) {
+	k := [2]int{from, int(slot)}
+	p := n.promises[k]
+	if p == nil {
+		p = &verifC12Promise{}
+		n.promises[k] = p
+	}
+	switch m.Type {
+	case raftpb.MsgPreVote, raftpb.MsgPreVoteResp:
+		return
+	}
+	if m.Term > p.SentTerm {
+		p.SentTerm = m.Term
+	}
+	candidate := uint64(0)
+	switch {
+	case m.Type == raftpb.MsgVote:
+		candidate = uint64(from)
+	case m.Type == raftpb.MsgVoteResp && !m.Reject:
+		candidate = m.To
+	case m.Type == raftpb.MsgAppResp && !m.Reject:
+		if m.Term > p.AckTerm {
+			p.AckTerm, p.AckIndex = m.Term, m.Index
+		} else if m.Term == p.AckTerm && m.Index > p.AckIndex {
+			p.AckIndex = m.Index
+		}
+	}
+	if candidate != 0 {
+		vk := [4]uint64{uint64(from), uint64(slot), m.Term, candidate}
+		if !n.votes[vk] {
+			n.votes[vk] = true
+			n.c.hist.add(verifC12Event{Kind: "vote", Node: from, Slot: int(slot), Inc: inc, Term: m.Term, Peer: int(candidate)})
+		}
+	}
+}
+
 func verifC12NewNet(c *verifC12Cluster, seed int64, link verifC12Link) *verifC12Net {
 	n := &verifC12Net{c: c, rng: rand.New(rand.NewSource(seed)), link: link, blocked: map[[2]int]bool{}, leaders: map[[2]uint64]int{},
+		promises: map[[2]int]*verifC12Promise{}, votes: map[[4]uint64]bool{},
 		wake: make(chan struct{}, 1), done: make(chan struct{})}
 	go n.run()
 	return n
@@ -376,7 +472,7 @@ func (n *verifC12Net) delayLocked() time.Duration {
 	return time.Duration(d) * time.Microsecond
 }
 
-func (n *verifC12Net) send(from int, batch []multiraft.Envelope) {
+func (n *verifC12Net) send(from, inc int, batch []multiraft.Envelope) {
 	now := time.Now()
 	n.mu.Lock()
 	if n.closed {
@@ -386,6 +482,7 @@ func (n *verifC12Net) send(from int, batch []multiraft.Envelope) {
 	for _, env := range batch {
 		to := int(env.Message.To)
 		n.sent.Add(1)
+		n.observeLocked(from, inc, env.SlotID, env.Message)
 		switch env.Message.Type {
 		case raftpb.MsgApp, raftpb.MsgHeartbeat, raftpb.MsgSnap:
 			k := [2]uint64{uint64(env.SlotID), env.Message.Term}
@@ -513,7 +610,7 @@ func (t verifC12Transport) Send(_ context.Context, batch []multiraft.Envelope) e
 	if t.inc.dead.Load() {
 		return nil
 	}
-	t.net.send(t.from, batch)
+	t.net.send(t.from, t.inc.n, batch)
 	return nil
 }
 
@@ -556,6 +653,219 @@ func (s *verifC12MemStore) MarkConfigApplied(ctx context.Context, index uint64) 
 	return nil
 }
 
+// verifC12Marks is what the harness knows about one (node, slot) storage
+// from the calls the storage acknowledged; it outlives the incarnations.
+type verifC12Marks struct {
+	mu        sync.Mutex
+	last      uint64   // index of the latest MarkApplied the storage acknowledged to a live incarnation
+	pending   []uint64 // MarkApplied calls being executed
+	maybe     []uint64 // MarkApplied calls the storage acknowledged after the incarnation had lost power
+	ambiguous bool     // two MarkApplied calls overlapped: their order in the store is not known
+	hs        raftpb.HardState
+}
+
+// allowed returns the applied indexes the storage may hold right now, or nil
+// when that is not known.
+func (m *verifC12Marks) allowed() []uint64 {
+	m.mu.Lock()
+	defer m.mu.Unlock()
+	if m.ambiguous {
+		return nil
+	}
+	return append(append([]uint64{m.last}, m.pending...), m.maybe...)
+}
+
+// reopened: the storage was read back at a restart; from here on its applied
+// index is known again.
+func (m *verifC12Marks) reopened(applied uint64) {
+	m.mu.Lock()
+	m.last, m.pending, m.maybe, m.ambiguous = applied, nil, nil, false
+	m.mu.Unlock()
+}
+
+func (m *verifC12Marks) floor() uint64 {
+	m.mu.Lock()
+	defer m.mu.Unlock()
+	if m.ambiguous {
+		return 0
+	}
+	return m.last
+}
+
+// verifC12Fault is one armed crash point: the node that first performs the
+// Nth matching storage write loses power there, before the write is durable
+// or right after it.
+type verifC12Fault struct {
+	class  string // any, entries, hardstate, vote, snapshot, applied
+	slot   int    // 0: any slot
+	before bool
+	unsynced int
+	seed     uint64
+
+	mu        sync.Mutex
+	left      int
+	claimed   bool
+	cancelled bool
+	node  int    // who lost power (0: nobody)
+	what  string // the write it happened at
+	vote  uint64 // class vote: the candidate the lost vote was for
+	fired chan struct{}
+}
+
+func verifC12NewFault(class string, slot, nth int, before bool, unsynced int, seed uint64) *verifC12Fault {
+	if nth < 1 {
+		nth = 1
+	}
+	return &verifC12Fault{class: class, slot: slot, before: before, left: nth, unsynced: unsynced, seed: seed, fired: make(chan struct{})}
+}
+
+// claim reports whether the calling write is the crash point.
+func (f *verifC12Fault) claim(slot int, what string) bool {
+	if f.slot != 0 && f.slot != slot {
+		return false
+	}
+	if f.class != "any" && f.class != what {
+		return false
+	}
+	f.mu.Lock()
+	defer f.mu.Unlock()
+	if f.claimed || f.cancelled {
+		return false
+	}
+	f.left--
+	if f.left > 0 {
+		return false
+	}
+	f.claimed = true
+	return true
+}
+
+// cancel disarms the fault; it reports whether the fault had fired.
+func (f *verifC12Fault) cancel() bool {
+	f.mu.Lock()
+	f.cancelled = true
+	claimed := f.claimed
+	f.mu.Unlock()
+	if !claimed {
+		return false
+	}
+	<-f.fired // a claimed fault always closes fired
+	return f.node != 0
+}
+
+// verifC12Store sits between one incarnation of a slot and its storage. It
+// refuses writes of an incarnation that lost power, keeps verifC12Marks, and
+// hosts the armed crash point.
+type verifC12Store struct {
+	multiraft.Storage // reads go straight through
+	n     *verifC12Node
+	slot  int
+	inc   *verifC12Inc
+	marks *verifC12Marks
+}
+
+func (s *verifC12Store) crash(f *verifC12Fault, what string, vote uint64) {
+	if s.n.powerOff(s.inc, "write:"+what, f.unsynced, f.seed) {
+		f.node, f.what, f.vote = s.n.id, what, vote
+	}
+	close(f.fired)
+}
+
+func (s *verifC12Store) Save(ctx context.Context, st multiraft.PersistentState) error {
+	if s.inc.dead.Load() {
+		return s.inc.lost()
+	}
+	if f := s.n.fault.Load(); f != nil {
+		what, vote := "hardstate", uint64(0)
+		s.marks.mu.Lock()
+		prev := s.marks.hs
+		s.marks.mu.Unlock()
+		switch {
+		case st.Snapshot != nil:
+			what = "snapshot"
+		case st.HardState != nil && st.HardState.Vote != 0 && st.HardState.Vote != uint64(s.n.id) &&
+			(st.HardState.Vote != prev.Vote || st.HardState.Term != prev.Term):
+			what, vote = "vote", st.HardState.Vote
+		case len(st.Entries) > 0:
+			what = "entries"
+		}
+		if f.claim(s.slot, what) {
+			if !f.before {
+				if err := s.Storage.Save(ctx, st); err == nil && st.HardState != nil {
+					s.marks.mu.Lock()
+					s.marks.hs = *st.HardState
+					s.marks.mu.Unlock()
+				}
+				what += "(durable)"
+			}
+			s.crash(f, what, vote)
+			return s.inc.lost()
+		}
+	}
+	err := s.Storage.Save(ctx, st)
+	if err == nil && st.HardState != nil {
+		s.marks.mu.Lock()
+		s.marks.hs = *st.HardState
+		s.marks.mu.Unlock()
+	}
+	return err
+}
+
+func (s *verifC12Store) markApplied(ctx context.Context, index uint64) error {
+	m := s.marks
+	m.mu.Lock()
+	if len(m.pending) > 0 {
+		m.ambiguous = true
+	}
+	m.pending = append(m.pending, index)
+	m.mu.Unlock()
+	err := s.Storage.MarkApplied(ctx, index)
+	m.mu.Lock()
+	for i, p := range m.pending {
+		if p == index {
+			m.pending = append(m.pending[:i], m.pending[i+1:]...)
+			break
+		}
+	}
+	// an acknowledgement that arrives after the power was lost is not known
+	// to be in the crash image: the value stays a possibility
+	if err == nil {
+		if s.inc.dead.Load() {
+			m.maybe = append(m.maybe, index)
+		} else {
+			m.last = index
+		}
+	}
+	m.mu.Unlock()
+	return err
+}
+
+func (s *verifC12Store) MarkApplied(ctx context.Context, index uint64) error {
+	if s.inc.dead.Load() {
+		return s.inc.lost()
+	}
+	if f := s.n.fault.Load(); f != nil && f.claim(s.slot, "applied") {
+		what := "applied"
+		if !f.before {
+			_ = s.markApplied(ctx, index)
+			what += "(durable)"
+		}
+		s.crash(f, what, 0)
+		return s.inc.lost()
+	}
+	return s.markApplied(ctx, index)
+}
+
+func (s *verifC12Store) MarkConfigApplied(ctx context.Context, index uint64) error {
+	if s.inc.dead.Load() {
+		return s.inc.lost()
+	}
+	if inner, ok := s.Storage.(multiraft.ConfigAppliedIndexStorage); ok {
+		return inner.MarkConfigApplied(ctx, index)
+	}
+	return nil
+}
+
 // ---------------------------------------------------------------- node / cluster
 
 type verifC12Node struct {
@@ -566,10 +876,14 @@ type verifC12Node struct {
 	rt     *multiraft.Runtime
 	db     *raftlog.DB
 	inc    *verifC12Inc
-	fs     *vfs.MemFS          // Kill mode: the crashable file system pebble lives on
+	fs     *vfs.MemFS          // Kill / MemFS mode: the file system pebble lives on
+	image  *vfs.MemFS          // Kill mode: crash image taken when the power was lost
 	mem    []multiraft.Storage // per slot, memory backend (survives "restart")
 	recs   []*verifC12Rec      // per slot
+	marks  []*verifC12Marks    // per slot
 	starts int
+
+	fault atomic.Pointer[verifC12Fault]
 }
 
 func (n *verifC12Node) runtime() *multiraft.Runtime {
@@ -603,6 +917,7 @@ func verifC12NewCluster(cfg verifC12Config, dir string) *verifC12Cluster {
 		n := &verifC12Node{c: c, id: i}
 		for s := 1; s <= cfg.Slots; s++ {
 			n.recs = append(n.recs, &verifC12Rec{c: c, node: i, slot: s})
+			n.marks = append(n.marks, &verifC12Marks{})
 			if !cfg.Pebble {
 				n.mem = append(n.mem, &verifC12MemStore{Storage: raftlog.NewMemory()})
 			}
@@ -639,12 +954,14 @@ func (n *verifC12Node) start() (err error) {
 		// harness goes through one mutex
 		verifC12OpenMu.Lock()
 		raftlog.VerifPebbleOptions = func(o *pebble.Options) { o.Logger = verifC12NoLog{} }
-		if cfg.Kill {
+		if cfg.Kill || cfg.MemFS {
 			if n.fs == nil {
 				n.fs = vfs.NewCrashableMem()
 			}
 			fs := n.fs
 			raftlog.VerifPebbleOptions = func(o *pebble.Options) { o.FS, o.Logger = fs, verifC12NoLog{} }
+		}
+		if cfg.Kill {
 			// an incarnation that lost power keeps running in this process
 			// until closed; its snapshot GC must not delete directories the
 			// crash image still refers to
@@ -657,7 +974,7 @@ func (n *verifC12Node) start() (err error) {
 			return fmt.Errorf("raftlog.Open node %d: %w", n.id, err)
 		}
 	}
-	inc := &verifC12Inc{n: n.starts + 1}
+	inc := &verifC12Inc{n: n.starts + 1, release: make(chan struct{})}
 	compaction := multiraft.LogCompactionConfig{Enabled: cfg.Trigger > 0, EnabledSet: true, TriggerEntries: cfg.Trigger, CheckInterval: time.Nanosecond}
 	rt, err := multiraft.New(multiraft.Options{
 		NodeID:       multiraft.NodeID(n.id),
@@ -688,12 +1005,26 @@ func (n *verifC12Node) start() (err error) {
 	for s := 1; s <= cfg.Slots; s++ {
 		rec := n.recs[s-1]
 		rec.inc.Store(int32(n.starts))
-		var st multiraft.Storage
+		var inner multiraft.Storage
 		if cfg.Pebble {
-			st = db.ForSlot(uint64(s))
+			inner = db.ForSlot(uint64(s))
 		} else {
-			st = n.mem[s-1]
+			inner = n.mem[s-1]
 		}
+		if !first {
+			// what the storage holds for the new incarnation, next to what the
+			// earlier ones had told their peers
+			bs, err1 := inner.InitialState(ctx)
+			last, err2 := inner.LastIndex(ctx)
+			if err1 == nil && err2 == nil {
+				// the previous incarnation is closed: no MarkApplied is executing any more
+				p := n.c.net.promised(n.id, s)
+				n.c.hist.add(verifC12Event{Kind: "durable", Node: n.id, Slot: s, Inc: n.starts, Term: bs.HardState.Term, Vote: bs.HardState.Vote,
+					Last: last, Index: bs.AppliedIndex, SentTerm: p.SentTerm, AckTerm: p.AckTerm, AckIndex: p.AckIndex, Marks: n.marks[s-1].allowed()})
+				n.marks[s-1].reopened(bs.AppliedIndex)
+			}
+		}
+		st := &verifC12Store{Storage: inner, n: n, slot: s, inc: inc, marks: n.marks[s-1]}
 		opts := multiraft.SlotOptions{ID: multiraft.SlotID(s), Storage: st, StateMachine: rec.sm(cfg.SMKind, inc)}
 		rec.opening.Store(true)
 		if first {
@@ -734,13 +1065,44 @@ func (verifC12NoLog) Fatalf(format string, a ...any) {
 // storage holds (OpenSlot error or raft panic on the loaded state).
 var verifC12ErrRestart = errors.New("restart from own storage failed")
 
-// kill simulates a power loss: from one instant on nothing of this
-// incarnation reaches the network or the state machine, and the storage the
-// next incarnation opens is a crash image of the file system taken at that
-// instant (synced data survives, unsynced data survives only partly). The
-// state machine keeps its state like a durable FSM: it is frozen while the
-// image is taken, so it holds exactly what it had applied by then.
-func (n *verifC12Node) kill(unsyncedPercent int, seed uint64) error {
+// powerOff is the instant a node loses power: from here on nothing of this
+// incarnation reaches the network, the state machine or the storage, and (in
+// Kill mode) the storage the next incarnation opens is a crash image of the
+// file system taken now (synced data survives, unsynced data survives only
+// partly). The state machine keeps its state like a durable FSM: it is frozen
+// while the image is taken, so it holds exactly what it had applied by then.
+// It may be called from inside a storage write of the incarnation itself; the
+// runtime is closed later by reap. It reports whether inc was the running
+// incarnation.
+func (n *verifC12Node) powerOff(inc *verifC12Inc, cause string, unsyncedPercent int, seed uint64) bool {
+	n.mu.Lock()
+	if n.rt == nil || n.inc != inc || inc.dead.Load() {
+		n.mu.Unlock()
+		return false
+	}
+	for _, r := range n.recs {
+		r.mu.Lock()
+	}
+	inc.dead.Store(true)
+	if n.c.cfg.Kill {
+		n.image = n.fs.CrashClone(vfs.CrashCloneCfg{UnsyncedDataPercent: unsyncedPercent, RNG: mrand2.New(mrand2.NewPCG(seed, 12))})
+	}
+	floors := make([]uint64, len(n.marks))
+	for i, m := range n.marks {
+		floors[i] = m.floor()
+	}
+	for _, r := range n.recs {
+		r.mu.Unlock()
+	}
+	starts := n.starts
+	n.mu.Unlock()
+	n.c.hist.add(verifC12Event{Kind: "kill", Node: n.id, Inc: starts, Err: cause, Floors: floors})
+	return true
+}
+
+// reap closes the runtime and storage handles of an incarnation that lost
+// power and puts the crash image in place.
+func (n *verifC12Node) reap() error {
 	n.mu.Lock()
 	rt, db, inc := n.rt, n.db, n.inc
 	n.rt, n.db = nil, nil
@@ -748,34 +1110,58 @@ func (n *verifC12Node) kill(unsyncedPercent int, seed uint64) error {
 	if rt == nil {
 		return nil
 	}
-	for _, r := range n.recs {
-		r.mu.Lock()
-	}
-	inc.dead.Store(true)
-	image := n.fs.CrashClone(vfs.CrashCloneCfg{UnsyncedDataPercent: unsyncedPercent, RNG: mrand2.New(mrand2.NewPCG(seed, 12))})
-	for _, r := range n.recs {
-		r.mu.Unlock()
-	}
-	n.c.hist.add(verifC12Event{Kind: "kill", Node: n.id, Inc: n.starts})
-	err := rt.Close()
+	err := verifC12CloseRuntime(rt, inc)
 	if db != nil {
 		_ = db.Close()
 	}
-	n.fs = image
+	if n.image != nil {
+		n.fs, n.image = n.image, nil
+	}
 	return err
+}
+
+// verifC12CloseRuntime closes a runtime. Storage writes of an incarnation
+// that lost power are parked; they are let go as soon as Close has marked
+// the runtime closed (from then on no slot is processed any more), so that
+// Close can collect the workers.
+func verifC12CloseRuntime(rt *multiraft.Runtime, inc *verifC12Inc) error {
+	if inc == nil || !inc.dead.Load() {
+		return rt.Close()
+	}
+	errc := make(chan error, 1)
+	go func() { errc <- rt.Close() }()
+	for {
+		if _, err := rt.Status(1); errors.Is(err, multiraft.ErrRuntimeClosed) {
+			break
+		}
+		time.Sleep(50 * time.Microsecond)
+	}
+	inc.releaseOnce.Do(func() { close(inc.release) })
+	return <-errc
+}
+
+// kill simulates a power loss at an arbitrary instant.
+func (n *verifC12Node) kill(unsyncedPercent int, seed uint64) error {
+	n.mu.RLock()
+	inc := n.inc
+	n.mu.RUnlock()
+	if inc != nil {
+		n.powerOff(inc, "power", unsyncedPercent, seed)
+	}
+	return n.reap()
 }
 
 // stop closes the runtime and then its storage (a process stop: everything
 // the runtime reported durable stays, everything in memory is gone).
 func (n *verifC12Node) stop() error {
 	n.mu.Lock()
-	rt, db := n.rt, n.db
+	rt, db, inc := n.rt, n.db, n.inc
 	n.rt, n.db = nil, nil
 	n.mu.Unlock()
 	if rt == nil {
 		return nil
 	}
-	err := rt.Close()
+	err := verifC12CloseRuntime(rt, inc)
 	n.c.hist.add(verifC12Event{Kind: "close", Node: n.id, Inc: n.starts})
 	if db != nil {
 		if e := db.Close(); e != nil && err == nil {
